@@ -33,3 +33,4 @@ func verifForbidOwner(o int, on bool)
 func verifMonitor(name string, on bool)
 func verifGuardMap(mu interface{}, m interface{})
 func verifGuardPtr(mu interface{}, p interface{})
+func verifNoteU(msg string, v uint64)
